@@ -15,7 +15,9 @@ Name(ty) == CASE ty.k = "prim" -> ty.t
               [] ty.k = "array" -> (CASE ty.n = 0 -> "[0]" [] ty.n = 2 -> "[2]" [] ty.n = 3 -> "[3]") \o ty.e.t
               [] ty.k = "struct" -> "P8"
               [] ty.k = "word" -> "W2"
-Modes == {"name", "view", "slicepointer", "arraypointer", "const", "namedlength", "member"}
+\* row / constrow / elemmember: the array is an ELEMENT (or a member of an element) of an outer array of another length
+\* (n + 2): `|x[1]|`, `|K[0]|`, `|hs[1].m|` denote the inner array
+Modes == {"name", "view", "slicepointer", "arraypointer", "const", "namedlength", "member", "row", "constrow", "elemmember"}
 Elems == {"i32", "u8", "i128", "bool"}
 
 VARIABLES ms, done, len, mode, elem
